@@ -584,18 +584,20 @@ class DiGraph(object):
         idoms = self.compute_immediate_dominators(head)
         frontier = {}
 
-        for node in idoms:
-            if len(self._nodes_pred[node]) >= 2:
+        # The head has no immediate dominator: if it has predecessors (it is
+        # in a loop), it is in the frontier of each dominator of them
+        for node in list(idoms) + [head]:
+            if node == head or len(self._nodes_pred[node]) >= 2:
                 for predecessor in self.predecessors_iter(node):
                     runner = predecessor
-                    if runner not in idoms:
+                    if runner != head and runner not in idoms:
                         continue
-                    while runner != idoms[node]:
+                    while runner != idoms.get(node):
                         if runner not in frontier:
                             frontier[runner] = set()
 
                         frontier[runner].add(node)
-                        runner = idoms[runner]
+                        runner = idoms.get(runner)
         return frontier
 
     def _walk_generic_first(self, head, flag, succ_cb):
